@@ -259,6 +259,12 @@ impl<A: Tracker> Pie<A> {
   pub fn resource_state_mut<R: Resource>(&mut self) -> &mut impl ResourceState<R> {
     self.0.resource_state_mut()
   }
+
+  /// Verification hook: read-only dump of the dependency store (nodes in rank order with their dependencies).
+  #[cfg(feature = "gohla_pie_verif")]
+  pub fn verif_dump_store(&self) -> Vec<String> {
+    self.0.verif_dump_store()
+  }
 }
 
 /// A session in which builds are executed.
